@@ -578,7 +578,12 @@ def resolve_type_params(
     result = {typ: resolved_type_params}
     type_params = []
 
-    for base in get_orig_bases(typ):
+    orig_bases_ = get_orig_bases(typ)
+    # an explicit Generic[...] base fixes the order of the parameters
+    # (class B(A[S, T], Generic[T, S]): B[x, y] means T=x, S=y)
+    for base in sorted(
+        orig_bases_, key=lambda b: get_type_origin(b) is not typing.Generic
+    ):
         base_type_params = collect_type_params(base)
         for type_param in base_type_params:
             if type_param not in type_params:
